@@ -6,9 +6,9 @@ Open Scope Z_scope.
 
 (* ------------------------------------------------------------- catchPanic *)
 
-Lemma catch_panic_js_safe : forall p, safe p = true -> exists c, catch_panic p = AErr c.
+Lemma catch_panic_js : forall p, is_js p = true -> exists c, catch_panic p = AErr c.
 Proof.
-  intros [b|b]; unfold safe, catch_panic; cbn [eject];
+  intros [b|b]; unfold is_js, catch_panic; cbn [eject];
     destruct b as [c|c|[c| |]| | | | |]; cbn; intro H; try discriminate; eauto.
 Qed.
 
@@ -18,41 +18,30 @@ Proof.
     destruct b as [c|c|[c| |]| | | | |]; cbn; intro H; try discriminate; reflexivity.
 Qed.
 
-Lemma catch_panic_escape_iff : forall p, (exists q, catch_panic p = APanic q) <-> safe p = false.
+Lemma catch_panic_escape_iff : forall p, (exists q, catch_panic p = APanic q) <-> is_js p = false.
 Proof.
-  intros [b|b]; unfold safe, catch_panic; cbn [eject];
-    destruct b as [c|c|[c| |]| | | | |]; cbn; split; intro H;
-    try reflexivity; try discriminate; try (destruct H; discriminate); eauto.
+  intro p. split.
+  - intros [q Hq]. destruct (is_js p) eqn:E; [|reflexivity].
+    destruct (catch_panic_js p E) as [c Hc]. congruence.
+  - intro H. eexists. apply catch_panic_foreign. exact H.
 Qed.
 
 Lemma catch_panic_classifies : forall p,
-  (safe p = true -> exists c, catch_panic p = AErr c) /\
+  (is_js p = true -> exists c, catch_panic p = AErr c) /\
   (is_js p = false -> catch_panic p = APanic (Raw (eject p))) /\
   (catch_panic p <> ARet).
 Proof.
-  intro p. split; [apply catch_panic_js_safe|]. split; [apply catch_panic_foreign|].
+  intro p. split; [apply catch_panic_js|]. split; [apply catch_panic_foreign|].
   destruct p as [b|b]; unfold catch_panic; cbn [eject];
     destruct b as [c|c|[c| |]| | | | |]; discriminate.
 Qed.
 
-(* the one JS payload that is not turned into an error: finding C02-throw-tostring *)
-Lemma catch_panic_tostring_refuted :
-  exists p, is_js p = true /\ exists q, catch_panic p = APanic q.
-Proof. exists (Exc (BValue VStrThrows)). split; [reflexivity|]. eexists. reflexivity. Qed.
-
 (* ------------------------------------------------------- tryCatchEvaluate *)
 
 Lemma try_catch_never_foreign : forall p,
-  match try_catch p with TCaught _ => True | TRaised q => safe q = true end.
+  match try_catch p with TCaught _ => True | TRaised q => is_js q = true end.
 Proof.
   intros [b|b]; unfold try_catch; cbn [eject]; destruct b as [c|c|v| | | | |]; cbn; auto.
-Qed.
-
-Lemma try_catch_safe : forall p, safe p = true ->
-  match try_catch p with TCaught v => v <> VStrThrows | TRaised q => safe q = true end.
-Proof.
-  intros [b|b]; unfold safe, try_catch; cbn [eject];
-    destruct b as [c|c|[c| |]| | | | |]; cbn; intro H; try discriminate; auto; discriminate.
 Qed.
 
 (* ---------------------------------------------------------- scope chain *)
@@ -183,64 +172,58 @@ Qed.
 
 (* --------------------------------------------- the reduction of the property *)
 
-Definition ctx_safe (ctx : option jsval) : Prop := ctx <> Some VStrThrows.
-
-Lemma eval_safe : forall c L ctx st, leaves safe c = true -> ctx_safe ctx ->
-  match fst (fst (eval L ctx c st)) with ONormal => True | OPanic p => safe p = true end.
+Lemma eval_js : forall c L ctx st, leaves is_js c = true ->
+  match fst (fst (eval L ctx c st)) with ONormal => True | OPanic p => is_js p = true end.
 Proof.
-  induction c as [|p|a IHa b IHb|body IH|body IHb h IHh|]; intros L ctx st Hl Hc; cbn [eval leaves] in *.
+  induction c as [|p|a IHa b IHb|body IH|body IHb h IHh|]; intros L ctx st Hl; cbn [eval leaves] in *.
   - exact I.
   - exact Hl.
   - apply andb_true_iff in Hl. destruct Hl as [Hla Hlb].
-    specialize (IHa L ctx st Hla Hc). destruct (eval L ctx a st) as [[o st1] m1]. cbn [fst] in *.
+    specialize (IHa L ctx st Hla). destruct (eval L ctx a st) as [[o st1] m1]. cbn [fst] in *.
     destruct o; [|exact IHa].
-    specialize (IHb L ctx st1 Hlb Hc). destruct (eval L ctx b st1) as [[o2 st2] m2]. exact IHb.
+    specialize (IHb L ctx st1 Hlb). destruct (eval L ctx b st1) as [[o2 st2] m2]. exact IHb.
   - destruct (enter L st) as [st1|]; [|reflexivity].
-    specialize (IH L ctx st1 Hl Hc). destruct (eval L ctx body st1) as [[o st2] m]. exact IH.
+    specialize (IH L ctx st1 Hl). destruct (eval L ctx body st1) as [[o st2] m]. exact IH.
   - apply andb_true_iff in Hl. destruct Hl as [Hlb Hlh].
-    specialize (IHb L ctx st Hlb Hc). destruct (eval L ctx body st) as [[o st1] m]. cbn [fst] in *.
+    specialize (IHb L ctx st Hlb). destruct (eval L ctx body st) as [[o st1] m]. cbn [fst] in *.
     destruct o; [exact I|].
-    pose proof (try_catch_safe p IHb) as Ht. destruct (try_catch p) as [v|q]; [|exact Ht].
-    assert (ctx_safe (Some v)) as Hv by (unfold ctx_safe; congruence).
-    specialize (IHh L (Some v) st1 Hlh Hv). destruct (eval L (Some v) h st1) as [[o2 st2] m2]. cbn [fst] in IHh.
+    pose proof (try_catch_never_foreign p) as Ht. destruct (try_catch p) as [v|q]; [|exact Ht].
+    specialize (IHh L (Some v) st1 Hlh). destruct (eval L (Some v) h st1) as [[o2 st2] m2]. cbn [fst] in IHh.
     destruct o2; [exact I|].
-    pose proof (try_catch_safe p0 IHh) as Ht2. destruct (try_catch p0) as [v2|q2]; cbn [fst]; [|exact Ht2].
-    unfold safe. cbn [eject base_safe]. destruct v2; try reflexivity. exfalso. apply Ht2. reflexivity.
-  - destruct ctx as [v|]; [|exact I]. cbn [fst]. unfold safe. cbn [eject].
-    destruct v; try reflexivity. exfalso. apply Hc. reflexivity.
+    pose proof (try_catch_never_foreign p0) as Ht2. destruct (try_catch p0) as [v2|q2]; cbn [fst]; [reflexivity|exact Ht2].
+  - destruct ctx as [v|]; [reflexivity|exact I].
 Qed.
 
-(* if no callee raises anything but well-behaved JS payloads, Run returns a value or an error *)
-Lemma run_no_escape : forall c L, leaves safe c = true -> forall q, run L c <> APanic q.
+(* if no callee raises anything but JavaScript payloads, Run returns a value or an error *)
+Lemma run_no_escape : forall c L, leaves is_js c = true -> forall q, run L c <> APanic q.
 Proof.
   intros c L Hl q. unfold run.
-  pose proof (eval_safe (Call c) L None [] Hl ltac:(unfold ctx_safe; discriminate)) as H.
+  pose proof (eval_js (Call c) L None [] Hl) as H.
   destruct (eval L None (Call c) []) as [[o st] m]. cbn [fst] in H.
   destruct o; [discriminate|].
-  destruct (catch_panic_js_safe p H) as [cl ->]. discriminate.
+  destruct (catch_panic_js p H) as [cl ->]. discriminate.
 Qed.
 
-(* a payload raised directly below the entry point escapes exactly when it is not such a payload *)
-Lemma run_raise_escape_iff : forall L p, (exists q, run L (Raise p) = APanic q) <-> safe p = false.
+(* a payload raised directly below the entry point escapes exactly when it is not a JavaScript payload *)
+Lemma run_raise_escape_iff : forall L p, (exists q, run L (Raise p) = APanic q) <-> is_js p = false.
 Proof.
   intros L p. unfold run. cbn [eval enter fst]. apply catch_panic_escape_iff.
 Qed.
 
 (* a try statement between the callee and the entry point hides every payload *)
-Lemma run_try_no_escape : forall L p h, leaves safe h = true ->
-  (forall v, try_catch p = TCaught v -> v <> VStrThrows) -> forall q, run L (Try (Raise p) h) <> APanic q.
+Lemma run_try_no_escape : forall L p h, leaves is_js h = true -> forall q, run L (Try (Raise p) h) <> APanic q.
 Proof.
-  intros L p h Hh Hv q. unfold run. cbn [eval enter].
+  intros L p h Hh q.
+  unfold run. cbn [eval enter].
   pose proof (try_catch_never_foreign p) as Hn.
   destruct (try_catch p) as [v|r] eqn:E.
-  - assert (ctx_safe (Some v)) as Hc by (unfold ctx_safe; intro X; injection X as ->; exact (Hv _ eq_refl eq_refl)).
-    pose proof (eval_safe h L (Some v) [0] Hh Hc) as H.
+  - pose proof (eval_js h L (Some v) [0] Hh) as H.
     destruct (eval L (Some v) h [0]) as [[o st] m]. cbn [fst] in H.
     destruct o; [discriminate|].
-    pose proof (try_catch_safe p0 H) as Ht2. destruct (try_catch p0) as [v2|q2].
-    + destruct v2; try discriminate. exfalso. apply Ht2. reflexivity.
-    + destruct (catch_panic_js_safe q2 Ht2) as [cl ->]. discriminate.
-  - destruct (catch_panic_js_safe r Hn) as [cl ->]. discriminate.
+    pose proof (try_catch_never_foreign p0) as Ht2. destruct (try_catch p0) as [v2|q2].
+    + destruct v2; discriminate.
+    + destruct (catch_panic_js q2 Ht2) as [cl ->]. discriminate.
+  - destruct (catch_panic_js r Hn) as [cl ->]. discriminate.
 Qed.
 
 (* scope chain after Run is empty again; depth stayed below the limit *)
